@@ -17,6 +17,8 @@ import TensoraVerif.Lemmas.StoreCertGenerate
 import TensoraVerif.Lemmas.LowerableComplete
 import TensoraVerif.Lemmas.DimDeadGenerate
 import TensoraVerif.Lemmas.Pipe1Class
+import TensoraVerif.Lemmas.Sparse1Generate
+import TensoraVerif.Lemmas.Dense2Generate
 open TV
 
 namespace Drv
@@ -367,16 +369,30 @@ def handle (cmd : String) (args : List Sexp) : Sexp :=
           Sexp.ofBool (Gen.outLeavesOf (Gen.outTensor d fs) g)]
     | _, _ => Sexp.mk "bad-request" [.str "graph-args"]
   | "CLASS", [a, fs] =>
-    -- which end-to-end theorem covers this problem: `dense1` = hypotheses `Dense1Source` and `Dense1Names` of
-    -- `evaluate_correct_dense1` (Props/C01DensePipeline.lean), decided here
+    -- which end-to-end theorem covers this problem, decided from the theorems' own (decidable) hypotheses:
+    -- `dense1` = `Dense1Source` + `Dense1Names` of `evaluate_correct_dense1` (whole pipeline);
+    -- `sparse1` / `dense2` = the graph the model chooses is `Sparse1.graph` / `Dense2.graph` with the class
+    -- predicates of `sparse1_kernel_correct` / `dense2_kernel_correct` (name side conditions: no '_' in names)
     match Alg.Wire.assignOf a, Graph.Wire.formatsOf fs with
     | some a, some fs =>
-      match a.tidx with
-      | [i] =>
-        let src := Pipe1.srcOk i a.tname fs a.rhs && Pipe1.isD fs a.tname
-        let names := Pipe1.fmtsD fs && fs.all (fun f => !f.1.toList.contains '_') && !i.toList.contains '_' &&
-          !(fs.map (·.1)).contains i
-        if src && names then .atom "dense1" else .atom "none"
+      let fnames : List String := List.map (fun (f : String × List Graph.Mode × List Nat) => f.1) fs
+      let plain := fnames.all (fun n => !n.toList.contains '_') && a.tidx.all (fun i => !i.toList.contains '_')
+      let d1 := match a.tidx with
+        | [i] =>
+          Pipe1.srcOk i a.tname fs a.rhs && Pipe1.isD fs a.tname && Pipe1.fmtsD fs && plain && !fnames.contains i
+        | _ => false
+      if d1 then .atom "dense1" else
+      let d := Alg.desugar a
+      match Graph.toIterationGraphs d fs with
+      | .ok (g :: _) =>
+        match g with
+        | .iter i (some ⟨o, 0⟩) (.terminal e) =>
+          let one := match ToIr.leaves e with | [bT] => Sparse1.isExpr i bT e && fnames == [o.name, bT.name] | _ => false
+          if plain && Sparse1.isSp i o && Sparse1.sparseFormats fs && one then .atom "sparse1" else .atom "none"
+        | .iter i (some ⟨o, 0⟩) (.iter j none (.terminal e)) =>
+          if plain && i != j && Dense1.isLeaf i o && Dense2.isExpr i j e && Dense2.idsOK i j e && Dense2.denseFormats fs
+            && (ToIr.leaves e).all (fun t => t.name != o.name) then .atom "dense2" else .atom "none"
+        | _ => .atom "none"
       | _ => .atom "none"
     | _, _ => Sexp.mk "bad-request" [.str "class-args"]
   | "DIMFREE", [a, fs, .str i] =>
